@@ -314,7 +314,8 @@ fn $fname(out: &mut Out, rng: &mut Rng, n: usize) {
         let res = edge::<Rgb<$S, T>, Hsl<$S, T>, T, 3, 3>(out, &format!("Rgb:{}", $sn), &format!("Hsl:{}", $sn), &xs);
         for (a, d) in &res {
             let (a64, got) = (to64(a), to64(d)); let want = spec::rgb_to_hsl(a64);
-            // s = d / (2 - sum): the divisor is a difference of O(1) quantities rounded in T
+            // s = d / ((1 - max) + (1 - min)), i.e. d / (2 - sum) (hsl.rs since 4f36dd5; before: `2 - sum` on the rounded sum): the divisor
+            // is a difference of O(1) quantities rounded in T
             let sum = a64.iter().cloned().fold(0.0, f64::max) + a64.iter().cloned().fold(1.0, f64::min);
             let stol = tol * (1.0 + if sum > 1.0 { 1.0 / (2.0 - sum).max(1e-300) } else { 0.0 });
             out.check(hue_close(got[0], want[0], htol) && (got[1] - want[1]).abs() <= stol && close(got[2], want[2], tol, 1.0), &format!("def:Rgb->Hsl:{}", tag), || format!("{} -> {}, double hexcone gives {}", fmt3(&a64), fmt3(&got), fmt3(&want)));
@@ -423,8 +424,9 @@ fn $fname(out: &mut Out, rng: &mut Rng, n: usize) {
             // before computing them): a source colour outside the target gamut has no prescribed value
             if mn < -delta && !got.iter().any(|x| x.is_nan()) { out.count(&format!("cls:{}-outside-target-gamut", $cn)); continue; }
             if got.iter().any(|x| x.is_infinite()) {
-                // Rgb -> Hsl divides by `2 - (max + min)` whenever `max != min` and `max + min > 1`: a white that arrives as
-                // (1 + ulp, 1 - ulp, 1) after the change of standard has max + min == 2 exactly in T
+                // Rgb -> Hsl divides by `(1 - max) + (1 - min)` whenever `max != min` and `max + min > 1` (4f36dd5; before: `2 - (max + min)`,
+                // which rounded to 0 for a white that arrives as (1 + 2 ulp, 1 - 3 ulp, 1 - ulp) after the change of standard). For max <= 1
+                // the new divisor is never 0; for max > 1 it still cancels exactly when max - 1 == 1 - min
                 out.check(false, &format!("hsl-white-inf:{}->{}:{}->{}:{}", $cn, $cn, $n1, $n2, tag), || format!("{}<{}> {} -> {}<{}> {}: infinite component from a finite in-range colour", $cn, $n1, fmt3(&a64), $cn, $n2, fmt3(&got)));
                 continue;
             }
